@@ -17,14 +17,14 @@ AXES = {
         "spot": [1 / 2, 3 / 4, 7 / 8, 1.0, 9 / 8, 5 / 4, 2.0],            # S / K
         "time": [1 / 16, 1.0, 5.0],
         "vol": [1 / 8, 1 / 2, 2.0],
-        "strike": [1 / 4, 3.0],
+        "strike": [1 / 4, 1.1, 3.0],                                 # 1.1: not representable in float32
         "max": [1.0, 5 / 4, 2.0],                                          # M / S  (running maximum >= spot)
     },
     "thorough": {
         "spot": [1 / 4, 3 / 8, 1 / 2, 5 / 8, 3 / 4, 7 / 8, 15 / 16, 1.0, 17 / 16, 9 / 8, 5 / 4, 3 / 2, 2.0, 5 / 2, 3.0],
         "time": [1 / 256, 1 / 64, 1 / 16, 1 / 4, 1.0, 2.0, 5.0],
         "vol": [1 / 32, 1 / 16, 1 / 8, 1 / 4, 1 / 2, 1.0, 2.0],
-        "strike": [1 / 8, 1 / 2, 1.0, 3.0, 10.0],
+        "strike": [1 / 8, 1 / 2, 1.0, 1.1, 3.0, 10.0],
         "max": [1.0, 17 / 16, 9 / 8, 3 / 2, 4.0],
     },
 }
